@@ -1179,12 +1179,36 @@ C20_CONFIGS = {
     "dialect": "dialect = CD",
     "sort_lazy": "sort_keys = True\n        lazy_compilation = True",
     "flags": "code_generation_options = [TO_DICT_ADD_OMIT_NONE_FLAG, TO_DICT_ADD_BY_ALIAS_FLAG, ADD_DIALECT_SUPPORT]\n        omit_none = True",
+    # customization registrations of every documented form: the schema generator walks the same levels as the serializer
+    "strategy_de_only": "serialization_strategy = {datetime.date: {'deserialize': _c20_de}, int: {'deserialize': int}, List[int]: {'deserialize': list}}",
+    "strategy_ser_fn": "serialization_strategy = {datetime.date: {'serialize': _c20_ser, 'deserialize': _c20_de}}",
+    "strategy_pass": "serialization_strategy = {datetime.date: pass_through, int: pass_through}",
+    "strategy_obj": "serialization_strategy = {datetime.date: _C20St()}",
+    "dialect_strategy": "dialect = CDS",
 }
+
+C20_STRATEGY_DEFS = """
+def _c20_de(v):
+    return datetime.date.fromisoformat(v)
+def _c20_ser(v) -> str:
+    return v.isoformat()
+class _C20St(SerializationStrategy):
+    def serialize(self, v) -> str:
+        return v.isoformat()
+    def deserialize(self, v):
+        return datetime.date.fromisoformat(v)
+class CDS(Dialect):
+    serialization_strategy = {datetime.date: {'deserialize': _c20_de}, float: {'deserialize': float}}
+"""
 
 C20_FIELDS = ["a: int = 1", "n: Optional[int] = None", "s: str = 'x'", "d: datetime.date = datetime.date(2020, 1, 2)", "l: List[int] = field(default_factory=list)",
               "e: E1 = E1.A", "al: Annotated[int, Alias('ann')] = 3", "m: int = field(default=4, metadata={'alias': 'mm'})", "t: Tuple[int, str] = (1, 'a')",
               "nt: NTS = NTS(1)", "u: Union[int, str] = 'q'", "f: float = 1.5", "b: bytes = b'x'", "dd: Dict[str, int] = field(default_factory=dict)",
-              "o: Optional[Leaf] = None", "td: datetime.timedelta = datetime.timedelta(seconds=3)", "lit: Literal['a', 'b'] = 'a'"]
+              "o: Optional[Leaf] = None", "td: datetime.timedelta = datetime.timedelta(seconds=3)", "lit: Literal['a', 'b'] = 'a'",
+              "dm: datetime.date = field(default=datetime.date(2020, 1, 2), metadata={'serialization_strategy': {'deserialize': _c20_de}})",
+              "ds: datetime.date = field(default=datetime.date(2020, 1, 2), metadata={'serialize': _c20_ser})",
+              "dst: datetime.date = field(default=datetime.date(2020, 1, 2), metadata={'serialization_strategy': _C20St()})",
+              "ld: List[datetime.date] = field(default_factory=list)"]
 
 
 def c20_task(payload):
@@ -1196,11 +1220,15 @@ def c20_task(payload):
         label = f"[{texpr}]"
     elif kind == "config":
         cfg, fld = spec
+        pep563 = False
+        if cfg.endswith("@pep563"):
+            cfg, pep563 = cfg[:-7], True
         body = C20_CONFIGS[cfg]
-        src = SCHEMA_PRELUDE + ("\nfrom mashumaro.config import TO_DICT_ADD_OMIT_NONE_FLAG, TO_DICT_ADD_BY_ALIAS_FLAG, ADD_DIALECT_SUPPORT\n"
+        src = ("from __future__ import annotations\n" if pep563 else "") + SCHEMA_PRELUDE + ("\nfrom mashumaro.config import TO_DICT_ADD_OMIT_NONE_FLAG, TO_DICT_ADD_BY_ALIAS_FLAG, ADD_DIALECT_SUPPORT\n"
+                                "from mashumaro.types import SerializationStrategy\n" + C20_STRATEGY_DEFS +
                                 "class CD(Dialect):\n    omit_none = True\n    omit_default = True\n    serialize_by_alias = True\n"
                                 f"@dataclass\nclass T(DataClassDictMixin):\n    x: int\n    {fld}\n" + (f"    class Config(BaseConfig):\n        {body}\n" if body else ""))
-        label = f"[config:{cfg}|{fld.split(':')[0]}]"
+        label = f"[config:{cfg}|{fld.split(':')[0]}]" + ("{pep563}" if pep563 else "")
     else:  # graphs
         src = SCHEMA_PRELUDE + GRAPHS[spec]
         label = f"[graph:{spec}]"
@@ -1254,7 +1282,7 @@ def c20_task(payload):
                 except Exception as e:  # noqa
                     probs.append(f"model round trip raised {type(e).__name__}: {e}"[:200])
                 obs.append(dict(id=oid, status="proved" if not probs else "refuted", unit="produced schema document", detail="; ".join(sorted(set(probs)))[:600],
-                                sample=json.dumps(doc)[:400], witness=({"confirmed": True, "source": src, "why": probs[0]} if probs else None)))
+                                sample=json.dumps(doc, default=str)[:400], witness=({"confirmed": True, "source": src, "why": probs[0]} if probs else None)))
         # accumulation with one builder
         if kind != "config" and not nonterm:
             oid = f"{pid}.G10{label}/builder_accumulation"
@@ -1305,6 +1333,16 @@ def check20(pid, tier):
     payloads = [(pid, "type", t) for t in SCHEMA_TYPES]
     flds = C20_FIELDS if tier == "thorough" else C20_FIELDS
     payloads += [(pid, "config", (c, f)) for c in C20_CONFIGS for f in flds]
+    # the same registrations in a module with postponed evaluation of annotations (PEP 563): return annotations are strings
+    payloads += [(pid, "config", (c + "@pep563", f)) for c in ("plain", "strategy_ser_fn", "strategy_obj") for f in flds if f.split(":")[0] in ("d", "ds", "dst", "dm", "ld", "a")]
+    try:
+        from . import s3resolve
+
+        obs += s3resolve.verify_schema_overridden(pid)
+    except Exception as e:  # noqa
+        import traceback
+
+        crashes.append(f"S9: {type(e).__name__}: {e}\n{traceback.format_exc()[-600:]}")
     payloads += [(pid, "graph", g) for g in GRAPHS]
     res = runner.run_pool(c20_task, payloads, chunks=4)
     for r in res:
@@ -1319,6 +1357,6 @@ def check20(pid, tier):
         extra_cov={"types": len(SCHEMA_TYPES), "config_points": len(C20_CONFIGS) * len(flds), "graphs": list(GRAPHS), "exhaustive": True,
                    "explanation": "for a fixed (type, Config, dialect, all_refs) the schema is one concrete object - there is no further quantifier - so these obligations are enumerated over the finite family (exhaustive over it); the S13 obligations are for all argument values"},
         trusted={"the jsonschema package's Draft 2020-12 metaschema check", "get_schema is opaque in S13 (its result is checked by the enumerated obligations)"},
-        functions=["jsonschema/builder.py:build_json_schema (S13, symbolic)", "jsonschema/schema.py:_default, on_dataclass, get_schema (through the produced documents)", "JSONSchemaBuilder.build / get_definitions"],
+        functions=["jsonschema/builder.py:build_json_schema (S13, symbolic)", "jsonschema/schema.py:Instance.get_overridden_serialization_method (S9: loop-body triple, symbolic)", "jsonschema/schema.py:_default, on_dataclass, get_schema (through the produced documents)", "JSONSchemaBuilder.build / get_definitions"],
         crashes=crashes,
     )
